@@ -57,7 +57,7 @@ CLAIMED = {
             "CFG reachability incl. generator-abandonment edges, reaching definitions, effect summaries, partial evaluation on boolean parameters, key-construction tracing", "§3/C12, §9.2"),
     "C14": ("partial: both front ends embed the same serialized automaton and token tables and agree with the .g4 sources; every lexer hook "
             "exists on both sides with the same state update; the hand-written layout algorithm (NEWLINE/INDENT/DEDENT decisions, indentation arithmetic) agrees between "
-            "FandangoLexerBase.cpp and FandangoLexerBase.py, and so does the end-of-input block of nextToken() (position, condition, emitted tokens)",
+            "FandangoLexerBase.cpp and FandangoLexerBase.py, and so does the end-of-input block of nextToken() (position, condition, emitted tokens); what the C++ input stream removes from the text (a leading byte order mark) is removed before the front ends part",
             "table extraction from generated .py (ast) and .cpp (tokenizer) + grammar reader + a reader for the C++ subset of the lexer base class with a canonical form shared with Python's ast", "§3/C14, §9.2"),
     "C15": ("grouping and bounds survive printing: postfix operands print at symbol level for every class that can occupy the field, "
             "printers read no re-bindable module state, literals are printed by repr / read by eval, regex source is rewritten only escape-aware, no printer is memoised by a key that misses what it reads, "
